@@ -47,10 +47,12 @@ def r02_2_join_payload(ctx: Ctx, rule: str = "R02.2") -> None:
         # names bound to to_payload(<captured operand>)
         operands: dict[str, str] = {}
         for name, b in env.items():
-            if isinstance(b, ast.Call) and call_attr(b) == "to_payload" and b.args and isinstance(b.args[0], ast.Name):
-                cap = env.get(b.args[0].id)
-                if isinstance(cap, tuple) and cap[0] == "capture" and cap[2] in (("lhs",), ("rhs",)):
-                    operands[cap[2][0]] = name
+            if isinstance(b, ast.Call) and call_attr(b) == "to_payload" and b.args:
+                from ..flow import field_access
+
+                fa = field_access(p, b.args[0])
+                if fa is not None and fa[0] == rel and fa[1] in (("lhs",), ("rhs",)):
+                    operands[fa[1][0]] = name
         if set(operands) != {"lhs", "rhs"}:
             raise AnalysisError("to_payload's Join arm does not compute a payload for both captured operands")
         lp, rp = operands["lhs"], operands["rhs"]
